@@ -2,7 +2,7 @@
 from ..engine import site_of
 from ..facts import op_place, op_local, op_const, AnchorError
 from ..callgraph import callee_is
-from ..mirutil import (option_some_edges, deep_root_through_try, root_place, op_root, deep_root, origin, defuse, calls_in, place_is_field, success_edges, field_writes,
+from ..mirutil import (feasible_reach, option_some_edges, deep_root_through_try, root_place, op_root, deep_root, origin, defuse, calls_in, place_is_field, success_edges, field_writes,
                        aggregates, result_return_sites, dominated_by_ok)
 from ..region import dominated_by_edges, write_summary
 from ..decision import enum_switch_edges
@@ -95,7 +95,7 @@ def r2_installed_before_leaving(cx):
                 oks = [rbi for kind, rbi, info in result_return_sites(cb) if kind == "ok"]
                 okp = bool(e_some)
                 for e in e_some:
-                    reach = cb.cfg.reachable_from_edge(e, avoid_blocks=[bb])
+                    reach = feasible_reach(cb, [cb.cfg.succ[e[1]][e[2]]], avoid_blocks=[bb])
                     if any(r in reach for r in oks):
                         okp = False
         cx.check("always-installed:" + cb.name, okp, site_of(cb, bb), "whenever a rotated key is produced it is installed before the function can return Ok (the reply leaves afterwards)")
